@@ -591,6 +591,43 @@ def key_export_seed(chk):
     chk.floor('key export cases', n, 3)
 
 
+def explicit_nonce_from_record(chk):
+    """RFC 5288 section 3 / RFC 6655: the receiver of an AES-GCM or AES-CCM record builds the nonce from its implicit salt and the 8-byte
+    explicit part *carried by the record* (the sender may choose it freely, it need not be the sequence number - other
+    implementations start from a random value).  Structural rule: in the decrypt function the 8 nonce bytes at offset 4 come from the
+    first 8 bytes of the record (the pointer handed to the CTR helper, or the source of the copy into the nonce buffer), never from
+    the receiver's own state."""
+    R = 'explicit-nonce-from-record'
+    n = 0
+    for src, fn in (('src/ssl/ssl_rec_gcm.c', 'gcm_decrypt'), ('src/ssl/ssl_rec_ccm.c', 'ccm_decrypt')):
+        u = build.load_unit(src)
+        F = next((irf.Func(u, f) for f in u['functions'] if f['name'] == fn and f.get('blocks')), None)
+        if F is None:
+            raise AnalysisBroken('%s vanished from %s' % (fn, src))
+        # parameter `data` is the 4th (cc, record_type, version, data, data_len)
+        DATA = {'k': 'a', 'v': 3}
+        srcs = []
+        for c in F.calls():
+            cal = c.get('callee') or ''
+            if cal == 'do_ctr':
+                srcs.append((c, F.addr_of(c['ops'][1])))
+            elif cal.startswith('llvm.memcpy') and c['ops'][2]['k'] == 'c' and c['ops'][2]['v'] == 8:
+                db, do = F.addr_of(c['ops'][0])
+                if db['k'] == 'i' and F.insts[db['v']]['op'] == 'alloca' and do == 4:
+                    srcs.append((c, F.addr_of(c['ops'][1])))
+        n += 1
+        inst = '%s: the explicit nonce is read from the first 8 bytes of the received record' % fn
+        if not srcs:
+            chk.violation(R, inst, F.where(), 'no nonce source identified (neither a do_ctr call nor an 8-byte copy to offset 4 of a local nonce)', key='%s %s none' % (R, fn))
+        elif all(a == (DATA, 0) for _, a in srcs):
+            chk.ok(R, inst, F.where(srcs[0][0]))
+        else:
+            c, a = next((c, a) for c, a in srcs if a != (DATA, 0))
+            chk.violation(R, inst, F.where(c), 'the nonce bytes come from %s: records from a peer whose explicit nonce is not its sequence number fail authentication'
+                          % ('a local buffer' if a[0]['k'] == 'i' else 'another object'), key='%s %s' % (R, fn))
+    chk.floor('AEAD record decrypt functions', n, 2)
+
+
 def run(tier):
     chk = report.Check('C01', tier,
                        'Static clauses of "both sides agree": the cipher-suite table of both handshake interpreters equals the IANA registry '
@@ -611,6 +648,7 @@ def run(tier):
     handshake_state_reset(chk)
     ske_hash_by_version(chk)
     key_export_seed(chk)
+    explicit_nonce_from_record(chk)
     from .. import engio, oblig as _ob
     _ob.run_obligations(chk, engio.progress_obligations())
     engio.ready_state(chk)
